@@ -6,7 +6,7 @@ V = os.path.dirname(os.path.dirname(os.path.abspath(__file__)))
 PROPS = [c["property_id"] for c in json.load(open(os.path.join(V, "MANIFEST.json")))["checks"]]
 
 def is_neutral(d):
-    return any(t in d for t in ("/wt/N", "/wt/B", "/wt/M", "/wt/P", "/wt/Q", "/wt/S", "/wt/T", "/wt/Z", "seeded_neutral"))
+    return any(t in d for t in ("/wt/N", "/wt/B", "/wt/M", "/wt/P", "/wt/Q", "/wt/S", "/wt/T", "/wt/Z", "/wt/A", "seeded_neutral"))
 
 
 def own_of(d):
